@@ -45,8 +45,8 @@ def driver(loader):
     out = [("cli: both settings objects come from read_settings_object_from_file",
             "preprocessing_settings = read_settings_object_from_file(kwargs.pop('preprocessing_settings_file'))" in src and
             "processing_settings = read_settings_object_from_file(kwargs.pop('processing_settings_file'))" in src, ""),
-           ("cli: one task per file name through Pool.starmap(_process_hvsr, zip(fnames, repeat(pre), repeat(proc), repeat(kwargs)))",
-            "p.starmap(_process_hvsr, zip(fnames, itertools.repeat(preprocessing_settings), itertools.repeat(processing_settings), itertools.repeat(kwargs))" in src, ""),
+           ("cli: one task per file name through Pool.starmap(_process_hvsr_and_report, zip(fnames, repeat(pre), repeat(proc), repeat(kwargs)))",
+            "p.starmap(_process_hvsr_and_report, zip(fnames, itertools.repeat(preprocessing_settings), itertools.repeat(processing_settings), itertools.repeat(kwargs))" in src, ""),
            ("cli: nothing is done when both --no_figure and --no_file are given", "if kwargs['no_figure'] and kwargs['no_file']:\n        return" in src, "")]
     return out
 
@@ -182,6 +182,37 @@ NOTHING.ghost_state = ("__written",)
 NOTHING.fstring_model = _fstring_csv
 TASKS.append(FunctionTask(NOTHING, module_env=_CLI_ENV, label="hvsrpy.cli._process_hvsr[--no_figure --no_file]", clauses=["--no_file writes nothing"]))
 
+# figures switched on (the default): the figure is drawn from the same result, and a figure that cannot be drawn - plot_single_panel_hvsr_curves raises ValueError for a
+# mean curve without a peak in the search range (a named condition here) - does not cost the file: it has been written when the exception leaves the worker
+from pyvc.core import PyRaiseIf as _PyRaiseIf
+CANNOT_DRAW = z3.Bool("the_figure_cannot_be_drawn")
+_nop = lambda name: FuncV(lambda ex, st, a, k, n_: NONE, name)
+
+
+def _m_plot_panel(ex, st, args, kw, node):
+    if not (len(args) == 1 and isinstance(args[0], _Val) and args[0].s == "<result>"):
+        raise Undecided("the figure is drawn from something other than the result")
+    st.env["__drawn"] = args[0]
+    if not any(z3.eq(p_, z3.Not(CANNOT_DRAW)) for p_ in st.pc):
+        raise _PyRaiseIf(CANNOT_DRAW, "ValueError")
+    return NONE
+
+
+_FIG = ModV("figure", {"savefig": _nop("fig.savefig")})
+_AX = ModV("axes", {"set_ylim": _nop("ax.set_ylim")})
+_PLT = ModV("plt", {"style": ModV("plt.style", {"use": _nop("plt.style.use")}), "subplots": FuncV(lambda ex, st, a, k, n_: Tup((_FIG, _AX)), "plt.subplots"), "close": _nop("plt.close")})
+_HV_FIG = ModV("hvsrpy", dict(_HV.attrs, plot_single_panel_hvsr_curves=FuncV(_m_plot_panel, "hvsrpy.plot_single_panel_hvsr_curves")))
+FIGURES = Contract(qual="hvsrpy.cli._process_hvsr", params=["fname", "preprocessing_settings", "processing_settings", "settings"],
+                   ghost={"written": FuncV(_written, "written"), "CANNOT_DRAW": CANNOT_DRAW}, make_inputs=_cli_inputs(False, False),
+                   ensures=["written()", "not CANNOT_DRAW"], raises_only_if={"ValueError": "CANNOT_DRAW"}, ensures_on_raise={"ValueError": ["written()"]}, modifies=[],
+                   notes="figures on: the same file as with --no_figure, and it has been written also when the figure cannot be drawn (the exception of the plotting function "
+                         "leaves the worker - and is reported by _process_hvsr_and_report - after the file is there)")
+FIGURES.ghost_state = ("__written", "__drawn")
+FIGURES.fstring_model = _fstring_csv
+FIGURES.conditional_raises = True
+TASKS.append(FunctionTask(FIGURES, module_env=dict(_CLI_ENV, hvsrpy=_HV_FIG, plt=_PLT), label="hvsrpy.cli._process_hvsr[figures on]",
+                          clauses=["a figure that cannot be drawn does not cost the result file"]))
+
 # ---------------------------------------------------------------------------------------------------------------------
 # cli() on its executed body: what the pool is asked to do.  Task i is (file name i, the preprocessing settings object read from the preprocessing file, the
 # processing settings object read from the processing file, the remaining options) for the worker _process_hvsr - one task per file name, in the order given,
@@ -227,16 +258,22 @@ def _m_pool(ex, st, args, kw, node):
     return p_
 
 
+FAILS = z3.Function("file_cannot_be_processed", I, z3.BoolSort())      # the library pipeline raises for this file name
+
+
 def _m_starmap(ex, st, args, kw, node):
+    """one result per task, in task order (A-POOL); the reporting worker's result for a file: the file's name when the pipeline raised for it, None otherwise
+    (its contract, below)"""
+    from pyvc.core import OptV
     pool, fn, tasks = args
     st.env["__starmaps"] = st.env["__starmaps"] + [(pool, fn, tasks, kw.get("chunksize", NONE))]
-    return NONE
+    return SeqV(NFILES, lambda ex_, st_, i: OptV(z3.Not(FAILS(FN_AT(lit(i)))), FN_AT(lit(i))), owner="fresh", name="starmap results")
 
 
 def _one_batch(ex, st, a, k, n_):
     """one pool, one starmap on it, for the worker"""
     ps, sm = st.env["__pools"], st.env["__starmaps"]
-    return z3.BoolVal(len(ps) == 1 and len(sm) == 1 and sm[0][0].oid == ps[0].oid and isinstance(sm[0][1], FuncV) and sm[0][1].name == "_process_hvsr" and isinstance(sm[0][2], SeqV))
+    return z3.BoolVal(len(ps) == 1 and len(sm) == 1 and sm[0][0].oid == ps[0].oid and isinstance(sm[0][1], FuncV) and sm[0][1].name == "_process_hvsr_and_report" and isinstance(sm[0][2], SeqV))
 
 
 def _task_is(ex, st, a, k, n_):
@@ -260,7 +297,7 @@ def _n_tasks(ex, st, a, k, n_):
     return sm[0][2].length if len(sm) == 1 and isinstance(sm[0][2], SeqV) else z3.IntVal(-1)
 
 
-_MAIN_GHOST = {"one_batch": FuncV(_one_batch, "one_batch"), "task_is": FuncV(_task_is, "task_is"), "n_tasks": FuncV(_n_tasks, "n_tasks"), "NFILES": NFILES,
+_MAIN_GHOST = {"FAILS": lambda i: FAILS(FN_AT(i)), "one_batch": FuncV(_one_batch, "one_batch"), "task_is": FuncV(_task_is, "task_is"), "n_tasks": FuncV(_n_tasks, "n_tasks"), "NFILES": NFILES,
                "nothing_started": FuncV(lambda ex, st, a, k, n_: z3.BoolVal(not st.env["__pools"] and not st.env["__starmaps"]), "nothing_started"),
                "pool_size": FuncV(lambda ex, st, a, k, n_: st.heap[st.env["__pools"][0].oid].fields["size"] if st.env["__pools"] else z3.IntVal(-1), "pool_size"),
                "chunksize": FuncV(lambda ex, st, a, k, n_: lit(st.env["__starmaps"][0][3]) if st.env["__starmaps"] and st.env["__starmaps"][0][3] is not NONE else z3.IntVal(-1), "chunksize"),
@@ -269,17 +306,22 @@ _POOL = FuncV(_m_pool, "Pool", attrs={"context_manager": True})
 _MAIN_ENV = {"read_settings_object_from_file": FuncV(_m_read_settings, "read_settings_object_from_file"), "Pool": _POOL,
              "os": ModV("os", {"cpu_count": FuncV(lambda ex, st, a, k, n_: CPUS, "os.cpu_count")}),
              "itertools": ModV("itertools", {"repeat": FuncV(_m_repeat19, "itertools.repeat")}),
-             "_process_hvsr": FuncV(lambda ex, st, a, k, n_: NONE, "_process_hvsr")}
+             "_process_hvsr_and_report": FuncV(lambda ex, st, a, k, n_: NONE, "_process_hvsr_and_report"),
+             "click": ModV("click", {})}
 for _given in (False, True):
     _workers = "NPROC" if _given else "CPUS - 1"
     _g = dict(_MAIN_GHOST, WORKERS=(NPROC if _given else CPUS - 1), NPROC=NPROC, CPUS=CPUS)
     _c = Contract(qual="hvsrpy.cli.cli", params=["ctx", "kwargs"], ghost=_g, make_inputs=_main_inputs(_given),
                   ensures=["implies(NOFIG and NOFILE, nothing_started())",
                            "implies(not (NOFIG and NOFILE), one_batch() and n_tasks() == NFILES and forall(i, 0, NFILES, task_is(i)))",
-                           "implies(not (NOFIG and NOFILE), pool_size() == min(NFILES, WORKERS) and chunksize() == max(1, NFILES // WORKERS))"],
+                           "implies(not (NOFIG and NOFILE), pool_size() == min(NFILES, WORKERS) and chunksize() == max(1, NFILES // WORKERS))",
+                           "implies(not (NOFIG and NOFILE), forall(i, 0, NFILES, not FAILS(i)))"],
+                  raises_only_if={"ClickException": "not (NOFIG and NOFILE) and exists(i, 0, NFILES, FAILS(i))"},
+                  ensures_on_raise={"ClickException": ["one_batch() and n_tasks() == NFILES and forall(i, 0, NFILES, task_is(i))"]},
                   modifies=["param:kwargs"],
                   notes="one task per file name in the order given, each with the file's own name and the same settings objects (read once from the two files) and options; "
-                        "pool of min(files, workers) processes, chunks of max(1, files // workers); with --no_figure --no_file no pool is started")
+                        "pool of min(files, workers) processes, chunks of max(1, files // workers); with --no_figure --no_file no pool is started; the command "
+                        "ends with an error exactly when the pipeline raised for some file - after every file has had its task")
     _c.ghost_state = ("__pools", "__starmaps")
     TASKS.append(FunctionTask(_c, module_env=_MAIN_ENV, registry={"Pool.starmap": FuncV(_m_starmap, "Pool.starmap")},
                               label=f"hvsrpy.cli.cli[--nproc {'given' if _given else 'default'}]",
@@ -300,3 +342,46 @@ META = dict(
                   "the AST pattern matcher"],
     assumptions=["A-POOL", "A-DET"],
 )
+
+# _process_hvsr_and_report: the worker called once with the task's own arguments in order; an exception of the pipeline does not leave the function (the rest of the
+# chunk is processed): the result is the file's name when the pipeline raised for it, None otherwise
+from pyvc.core import PyRaiseIf
+FNAME = z3.Int("file_name_of_the_task")
+A1, A2, A3 = z3.Ints("task_argument_1 task_argument_2 task_argument_3")
+
+
+def _m_worker(ex, st, args, kw, node):
+    from pyvc.core import PyRaise
+    bad = FAILS(FNAME)
+    if not any(z3.eq(p_, bad) or z3.eq(p_, z3.Not(bad)) for p_ in st.pc):
+        raise PyRaiseIf(bad, "ValueError")          # the statement is run again under each of the two assumptions
+    st.env["__worker_calls"] = st.env["__worker_calls"] + [tuple(args)]
+    if any(z3.eq(p_, bad) for p_ in st.pc):
+        raise PyRaise("ValueError", "the pipeline raised for this file")
+    return NONE
+
+
+def _report_inputs(ex, st):
+    st.env["fname"] = FNAME
+    st.env["args"] = Tup((A1, A2, A3))
+    st.env["__worker_calls"] = []
+    return []
+
+
+def _called_once(ex, st, a, k, n_):
+    c = st.env["__worker_calls"]
+    return z3.BoolVal(len(c) == 1 and len(c[0]) == 4 and all(z3.is_expr(lit(x)) for x in c[0])) if len(c) != 1 or len(c[0]) != 4 else \
+        z3.And(lit(c[0][0]) == FNAME, lit(c[0][1]) == A1, lit(c[0][2]) == A2, lit(c[0][3]) == A3)
+
+
+_rc = Contract(qual="hvsrpy.cli._process_hvsr_and_report", params=["fname", "args"],
+               ghost={"called_once": FuncV(_called_once, "called_once"), "FAILS": FAILS(FNAME), "FNAME": FNAME}, make_inputs=_report_inputs,
+               ensures=["implies(not FAILS, called_once())", "implies(FAILS, result == FNAME)", "implies(not FAILS, result is None)"], modifies=[],
+               notes="the worker once, with the task's arguments in their order; whatever it raises is caught and reported as the file's name - no exception leaves "
+                     "the function, so the remaining tasks of the chunk are run (Pool.starmap abandons a chunk at the first exception).  The arguments of the call are "
+                     "checked on the way on which it returns: the engine restarts the raising way from the state before the statement, and the call expression is the same "
+                     "one for both outcomes")
+_rc.conditional_raises = True
+_rc.ghost_state = ("__worker_calls",)
+TASKS.append(FunctionTask(_rc, module_env={"_process_hvsr": FuncV(_m_worker, "_process_hvsr")}, label="hvsrpy.cli._process_hvsr_and_report",
+                          clauses=["a file that cannot be processed is reported, the other files of its chunk are still processed"]))
